@@ -197,10 +197,12 @@ def run(ctx):
                 corr_bad = dict(file=bytes(data).hex()[:2000], name=os.path.basename(newpath), malformed=kind, implementation=short(got), model=short(m))
             os.unlink(newpath)
         # real recordings
-        files = [f for f in recordings.list_recordings() if q is False or os.path.getsize(f) < 200000]
+        # (the extracted Coq Blowfish handles ~10 kB/s: whole-file model reads and re-wraps for the smaller recordings, a 32 KiB prefix for the others;
+        #  a thorough run that pushed all 45 recordings through it twice took over two hours)
+        files = [f for f in recordings.list_recordings() if os.path.getsize(f) < (200000 if q else 1200000)]
         if q:
             big = [f for f in recordings.list_recordings() if 'wot_1_8_0' in f or '/0_8_0/6979' in f]
-        else: big = []
+        else: big = [f for f in recordings.list_recordings() if f not in files]
         for f in files:
             got = lib_read(f); m = model_result(model_read(f))
             ctx.case(('rec', os.path.basename(f))); ctx.traces_validated += 1
